@@ -42,6 +42,7 @@ import (
 	"sync/atomic"
 	"time"
 
+	"github.com/krotik/common/datautil"
 	"github.com/krotik/ecal/cli/tool"
 	"github.com/krotik/ecal/interpreter"
 	"github.com/krotik/ecal/parser"
@@ -110,6 +111,18 @@ bad(1)
 x.gate()
 `
 
+const c16ProgNestArg = `func g(y) {
+    return y + 1
+}
+func f(x) {
+    return x + 2
+}
+a := 1
+r := f(g(a))
+s := f(g(f(1)))
+x.gate()
+`
+
 const c16ProgShort = `a := 1
 b := [1, 2]
 `
@@ -128,6 +141,7 @@ type c16Case struct {
 	ready   bool
 	stuck   bool // Status does not answer any more
 	hung    bool // a command did not return
+	refsKnown string // set by scenarios that install the references themselves
 	pending chan string // an inject that has not returned (yet)
 	sharedErp *interpreter.ECALRuntimeProvider
 	viaCLI  bool // commands go through CLIDebugInterpreter.Handle
@@ -258,26 +272,18 @@ func (c *c16Case) threadTable() map[string]map[string]interface{} {
 // quiesce waits until every started thread is suspended, in the gate or finished.
 func (c *c16Case) quiesce() bool {
 	deadline := time.Now().Add(30 * time.Second)
-	stable := 0
 	for {
 		tt := c.threadTable()
 		if tt == nil {
 			return false
 		}
 		all := true
-		// VisitStepOutState marks a thread whose error is already recorded as not running
-		// WITHOUT waiting: such a thread only counts as suspended if it stays that way
-		transient := false
 		c.mu.Lock()
 		tids := make([]uint64, 0, len(c.done))
 		for t := range c.done {
 			tids = append(tids, t)
 		}
 		c.mu.Unlock()
-		// the evaluation of a pending inject runs as thread 999: it counts while it is under way
-		if e, ok := tt["999"]; ok && e["threadRunning"] != false && c.evaluating() {
-			all = false
-		}
 		for _, t := range tids {
 			if c.isDone(t) {
 				continue
@@ -287,26 +293,14 @@ func (c *c16Case) quiesce() bool {
 			}
 			if e, ok := tt[fmt.Sprint(t)]; ok {
 				if r, ok := e["threadRunning"]; ok && r == false {
-					if e["error"] != nil {
-						transient = true
-					}
 					continue
 				}
 			}
 			all = false
 		}
-		if all && !transient {
+		if all {
 			return true
 		}
-		if all {
-			stable++
-			if stable >= 25 {
-				return true
-			}
-			time.Sleep(100 * time.Microsecond)
-			continue
-		}
-		stable = 0
 		if time.Now().After(deadline) {
 			CountRun("quiesce-timeout")
 			fmt.Fprintf(os.Stderr, "c16: no quiescence: threads %v\n", tt)
@@ -330,14 +324,23 @@ func c16Names(m map[string]interface{}) string {
 
 // observe: the abstract state (see the head of the file)
 func (c *c16Case) observe() string {
-	refs := "0"
-	func() {
-		defer func() { recover() }() // before a44f74f LockState panics exactly when the references are unset
-		m := c.dbg.LockState().(map[string]interface{})
-		if t, _ := m["threads"].(map[string]interface{}); t != nil {
-			refs = "1"
-		}
-	}()
+	// the lazily set references: owners+log (SetLockingState) and thread pool (SetThreadPool)
+	refs := c.refsKnown
+	if refs == "" {
+		refs = "00"
+		func() {
+			defer func() { recover() }() // a LockState without its nil checks panics exactly when a reference is unset
+			m := c.dbg.LockState().(map[string]interface{})
+			l, p := "0", "0"
+			if o, _ := m["owners"].(map[string]uint64); o != nil {
+				l = "1"
+			}
+			if t, _ := m["threads"].(map[string]interface{}); t != nil {
+				p = "1"
+			}
+			refs = l + p
+		}()
+	}
 	tt := c.threadTable()
 	var ths []string
 	for k, e := range tt {
@@ -438,6 +441,18 @@ func c16NewCase(scn string, gsGiven bool) *c16Case {
 		c.start(1, "nest", c16ProgNest)
 		c.quiesce()
 		c.dbg.Continue(1, util.StepOver)
+	case "two999": // thread 1 two calls deep, a REAL thread with id 999 suspended at top level
+		c.dbg.SetBreakPoint("prog", 3)
+		c.start(999, "prog", c16ProgTop)
+		c.quiesce()
+		c.dbg.SetBreakPoint("nest", 6)
+		c.start(1, "nest", c16ProgNest)
+	case "halfrefs": // between SetLockingState and SetThreadPool of the very first evaluation
+		c.dbg.SetLockingState(map[string]uint64{}, &sync.Mutex{}, datautil.NewRingBuffer(8))
+		c.refsKnown = "10"
+	case "nestarg": // a call whose argument is a call: VisitStepInState's "stop before entering" branch
+		c.dbg.SetBreakPoint("narg", 7)
+		c.start(1, "narg", c16ProgNestArg)
 	case "finished":
 		c.start(1, "short", c16ProgShort)
 	case "finerr":
@@ -457,7 +472,7 @@ func c16NewCase(scn string, gsGiven bool) *c16Case {
 }
 
 var c16Scenarios = []string{"none", "bos", "top", "running", "nest1", "nest2", "nest3", "errsusp", "finished", "finerr", "two",
-	"errmap", "errnest", "errinf", "stepbp1", "stepbp2", "stepbp3"}
+	"errmap", "errnest", "errinf", "stepbp1", "stepbp2", "stepbp3", "two999", "halfrefs", "nestarg"}
 
 func (c *c16Case) end() {
 	c16Cases.Delete(c.gs)
@@ -507,8 +522,7 @@ func (c *c16Case) end() {
 //	1 / 0 : evaluates without / with an error (measured by evaluating it the way InjectValue does)
 //	V     : calls a function declared by the debugged program, which reports to the debugger (not
 //	        pre-evaluated: as thread 999 it would itself stop at break points)
-//	B     : as V, but the function runs into an active break point (or break-on-start is set):
-//	        the evaluation stops there as thread 999 and the command does not return
+//	        (an evaluation is not debugged: break points inside the function do not stop it)
 //	D     : does not return while the case lasts (a loop over x.spin())
 func (c *c16Case) evalBit(line string) string {
 	f := strings.Fields(line)
@@ -519,22 +533,12 @@ func (c *c16Case) evalBit(line string) string {
 	if strings.Contains(expr, "x.spin(") {
 		return "D"
 	}
-	for fn, lines := range map[string][]string{"f3(": {"nest:2", "nest:3"}, "f1(": {"nest:10", "nest:11", "nest:6", "nest:7", "nest:2", "nest:3"}} {
+	for _, fn := range []string{"f3(", "f1(", "f2("} {
 		if !strings.Contains(expr, fn) {
 			continue
 		}
 		if _, defined, _ := c.gs.GetValue(strings.TrimSuffix(fn, "(")); !defined {
 			break // an unknown function: an ordinary error, measured below
-		}
-		st, _ := c.dbg.Status().(map[string]interface{})
-		if st["breakonstart"] == true {
-			return "B"
-		}
-		bps, _ := st["breakpoints"].(map[string]bool)
-		for _, l := range lines {
-			if bps[l] {
-				return "B"
-			}
 		}
 		return "V"
 	}
@@ -696,6 +700,8 @@ func c16Exec(scn string, gsGiven bool, lines []string, rec []c16Step, obs0 strin
 				if _, ok := c.done[2]; !ok {
 					c.start(2, "prog", c16ProgTop)
 				}
+			case "!stopthreads": // what the CLI tool does on @reload
+				c.dbg.StopThreads(0)
 			case "!dbgtable":
 				if !c.dbgTable() {
 					return o0, out, strings.Join(classes, ",") + " BADTABLE"
@@ -713,8 +719,8 @@ func c16Exec(scn string, gsGiven bool, lines []string, rec []c16Step, obs0 strin
 		} else {
 			st.bit = c.evalBit(ln)
 			var cl string
-			if st.bit == "D" || st.bit == "B" {
-				cl = c.commandAsync(ln, st.bit == "B")
+			if st.bit == "D" {
+				cl = c.commandAsync(ln, false)
 			} else {
 				cl = c.command(ln)
 			}
@@ -742,6 +748,20 @@ func c16Exec(scn string, gsGiven bool, lines []string, rec []c16Step, obs0 strin
 		out = append(out, st)
 	}
 	still := c.command("status")
+	// an inject that had not returned: with the case over (x.spin() is false) its reply is due —
+	// a panic, or a goroutine that never comes back (runtime.Goexit inside HandleInput), is a class
+	if c.pending != nil {
+		c16Cases.Delete(c.gs)
+		select {
+		case r := <-c.pending:
+			if r != "ok" && r != "error" {
+				still += " LATE:" + r
+			}
+		case <-time.After(c16CmdTimeout()):
+			still += " LATE:NORETURN"
+		}
+		c.pending = nil
+	}
 	if p := c.thrPan.Load(); p != nil {
 		still += " THREAD-PANIC"
 	}
@@ -972,7 +992,7 @@ func c16Run(payload string) string {
 // ---- generator
 
 var c16Args = []string{
-	"1", "2", "77", "-1", "0", "18446744073709551616", "99999999999999999999", "+1", "01", "9223372036854775808",
+	"1", "2", "77", "999", "-1", "0", "18446744073709551616", "99999999999999999999", "+1", "01", "9223372036854775808",
 	"prog", "nosrc", "prog:1", "nest:6", "prog:", ":1", "prog:x", "a:b:c", "prog:-1", "prog:0",
 	"a", "zz", "m.k", "l.5", "zz.q", "1+1", "1+", "\xff\xfe", "%$", "nosuch()",
 	"resume", "StepIn", "stepover", "STEPOUT", "stepİn", "true", "false", " ",
@@ -1118,8 +1138,24 @@ func c16Gen(g *Gen) {
 		emit(scn, true, "inject 1 p for x.spin() { }", "status", "break prog:1", "rmbreak prog", "describe 1", "inject 1 p 1+1", "lockstate", "cont 1 stepover", "status")
 	}
 	emit("top", true, "inject 1 a for x.spin() { }", "status", "disablebreak prog:3", "extract 1 a dst", "describe 1")
+	// the evaluation of an injected expression is not debugged: break points inside the called
+	// function / break-on-start do not stop it, it shares no thread id with anything
 	emit("nest2", true, "inject 1 p f1(1)", "status", "break prog:1", "describe 999", "cont 999 resume", "status")
 	emit("nest1", true, "breakonstart", "inject 1 p f3(1)", "status", "describe 999", "rmbreak nest", "cont 999 stepover", "status")
+	emit("nest3", true, "break nest:3", "inject 1 p f3(1)", "inject 1 q f1(2)", "status")
+	// a real thread 999 survives an inject on another thread
+	emit("two999", true, "inject 1 p 1+1", "status", "describe 999", "cont 999 resume", "status")
+	emit("two999", true, "inject 1 p f3(1)", "inject 999 a f1(1)", "extract 999 a dst", "cont 999 stepover", "describe 999")
+	// StopThreads (the tool's @reload) while an inject is still evaluating; its late reply is read at the end
+	emit("nest2", true, "inject 1 p for x.spin() { }", "!stopthreads", "status", "break prog:1")
+	emit("top", true, "inject 1 a for x.spin() { }", "cont 1 resume", "!release", "status")
+	// lockstate between SetLockingState and SetThreadPool
+	emit("halfrefs", true, "lockstate")
+	emit("halfrefs", true, "lockstate", "status", "lockstate 1")
+	// stepping into / over a call whose argument is a call
+	emit("nestarg", true, "cont 1 stepin", "cont 1 stepin", "describe 1", "cont 1 stepin", "cont 1 stepin", "cont 1 stepover", "cont 1 stepover", "status")
+	emit("nestarg", true, "cont 1 stepover", "cont 1 stepin", "cont 1 stepout", "cont 1 stepin", "cont 1 stepin", "cont 1 stepin", "describe 1")
+	emit("nestarg", true, "cont 1 stepin", "cont 1 stepover", "cont 1 stepover", "cont 1 stepin", "cont 1 stepout", "cont 1 stepout", "status")
 	// the same through the CLI tool's handler (cli/tool/debug.go: Handle, CanHandle, the @dbg table)
 	for _, scn := range []string{"cli:none", "cli:top", "cli:nest2", "cli:errsusp", "cli:errmap", "cli:two", "cli:finished"} {
 		emit(scn, true, "!dbgtable", "status", "lockstate", "describe 1", "break prog:1", "cont 1 stepout", "status")
@@ -1175,7 +1211,7 @@ func c16Gen(g *Gen) {
 				continue
 			}
 			errData := scn == "errmap" || scn == "errnest" || scn == "errinf"
-			stepBp := strings.HasPrefix(scn, "stepbp")
+			stepBp := strings.HasPrefix(scn, "stepbp") || scn == "two999" || scn == "halfrefs" || scn == "nestarg"
 			args := c16ArgsSmall
 			if g.Thorough() && gsGiven && !errData {
 				args = c16Args
